@@ -10,7 +10,7 @@
 
   Python -> Lean conventions: text is `List Char`; `int` is `Int`; exceptions are data (`Exn`);
   CPython built-ins that the code calls are modelled as executable functions and tied by
-  correspondence: `int(str)` (`pyInt`), `str.strip` (`strip`), `re.match` of the one bracket regex
+  correspondence: `int(str)` (`pyInt`), `str.strip` (`pyStrip`), `re.match` of the one bracket regex
   (`bracketMatch`), text-mode `readlines()` (`readlines`), `ipaddress.IPv6Address` (`isIPv6`),
   `sorted(key=…, reverse=…)` (`sortBy`), `'%d' %` (`showInt`).  The name resolver and the network
   are parameters (`Resolver`, `up`).  Non-ASCII decimal digits (Unicode category Nd) are treated as
@@ -36,7 +36,7 @@ def intSpace (c : Char) : Bool :=
   pySpace c && !(28 ≤ c.toNat && c.toNat ≤ 31)
 
 /-- `s.strip()` -/
-def strip (s : Str) : Str := ((s.dropWhile pySpace).reverse.dropWhile pySpace).reverse
+def pyStrip (s : Str) : Str := ((s.dropWhile pySpace).reverse.dropWhile pySpace).reverse
 
 def intStrip (s : Str) : Str := ((s.dropWhile intSpace).reverse.dropWhile intSpace).reverse
 
@@ -320,7 +320,7 @@ def readlines (content : Str) : List Str := splitKeep (univNl false content)
 
 /-- `[t.strip() for t in lines if t.strip() != ""]` -/
 def cleanLines (lines : List Str) : List Str :=
-  (lines.filter (fun l => strip l != [])).map strip
+  (lines.filter (fun l => pyStrip l != [])).map pyStrip
 
 def fileTargets (content : Str) : List Str := cleanLines (readlines content)
 
